@@ -579,7 +579,8 @@ impl<'a> Gen<'a> {
                 0 | 1 => {
                     let own = d.id();
                     let new = match self.s.below(6) {
-                        0 => own,
+                        // (an equal value; every other time one that differs in what equality does not cover)
+                        0 => own.with_shade((d.history.len() % 2) as u8),
                         1 => SimId::new(own.addr, own.gen.saturating_sub(1)),
                         2 => SimId::new(own.addr, own.gen.saturating_sub(2)),
                         // the instance moves to a fresh address nobody else uses (address migration)
